@@ -137,6 +137,8 @@ pub struct RunOpts {
     /// supply a draw-counting generator (same stream as the default one) and a log configuration
     pub counting_rng: bool,
     pub log_config: bool,
+    /// > 0: a log rule whose trigger is `LessThanN::iterations(log_lt)` ("log only the first passes")
+    pub log_lt: u32,
     /// record the objective-side event log of every evaluation step
     pub par_log: bool,
     /// register the real evaluator under identifier A and a poisoned one under the default identifier
@@ -288,6 +290,7 @@ where
     });
     let counting = opts.counting_rng;
     let log_config = opts.log_config;
+    let log_lt = opts.log_lt;
     let eval_id_a = opts.eval_id_a;
     let body = || {
         config.optimize_with(problem, |state| {
@@ -309,6 +312,12 @@ where
                 state.configure_log(|c| {
                     c.with_common(mahf::conditions::EveryN::iterations(2))
                         .with(mahf::conditions::EveryN::iterations(1), mahf::lens::common::BestObjectiveValueLens::entry());
+                    Ok(())
+                })?;
+            }
+            if log_lt > 0 {
+                state.configure_log(|c| {
+                    c.with(LessThanN::iterations(log_lt), mahf::lens::common::BestObjectiveValueLens::entry());
                     Ok(())
                 })?;
             }
@@ -529,6 +538,7 @@ where
     P: SingleObjectiveProblem + LimitedVectorProblem<Element = f64>,
 {
     use mahf::components::{initialization, mutation, recombination};
+    let name = name.strip_suffix("|log4").unwrap_or(name);
     let cond = || LessThanN::iterations(n);
     if name == "ident" {
         // C15: configurations that differ only in an identifier type parameter
@@ -767,7 +777,8 @@ pub fn run_spec(out: &mut Out, run: u64, spec: &Value) {
                 }
                 Ok(Ok(config)) => {
                     header["ctor"] = json!("ok");
-                    let o = observe_with(&config, &problem, seed, extra, &RunOpts { parallel, eval_id_a: name.ends_with("@A"), ..Default::default() });
+                    let o = observe_with(&config, &problem, seed, extra, &RunOpts { parallel, eval_id_a: name.ends_with("@A"),
+                                                                                   log_lt: if name.ends_with("|log4") { 4 } else { 0 }, ..Default::default() });
                     header["tree"] = o.tree.clone();
                     let values = problem.stats().values.lock().unwrap().clone();
                     emit_run(out, run, &header, &o, &values);
@@ -779,7 +790,8 @@ pub fn run_spec(out: &mut Out, run: u64, spec: &Value) {
         "real" => {
             let mut problem = RealProblem::new(prob["f"].as_u64().unwrap_or(0) as u8, prob["dim"].as_u64().unwrap() as usize, prob["lo"].as_f64().unwrap(), prob["hi"].as_f64().unwrap());
             problem.hetero = prob["hetero"].as_u64() == Some(1);
-            go!(problem, real_template::<RealProblem>(name, params, n), super::templates_extra::real_extra(name, params, n))
+            let base = name.strip_suffix("|log4").unwrap_or(name);
+            go!(problem, real_template::<RealProblem>(base, params, n), super::templates_extra::real_extra(base, params, n))
         }
         "bits" => {
             let problem = BitProblem::new(prob["dim"].as_u64().unwrap() as usize);
